@@ -1463,17 +1463,26 @@ pub fn float_vector_shove(push_state: &mut PushState, _instruction_cache: &Instr
     }
 }
 
-/// FLOATVECTOR.SORT*ASC: Sorts the top FLOATVECTOR item in ascending order.
+/// Order used to sort FLOATVECTOR items: the usual order of the numbers; NaN is not
+/// comparable to a number, so every NaN is placed behind all numbers (all NaN are equal).
+fn float_order(a: &f32, b: &f32) -> std::cmp::Ordering {
+    a.partial_cmp(b)
+        .unwrap_or_else(|| a.is_nan().cmp(&b.is_nan()))
+}
+
+/// FLOATVECTOR.SORT*ASC: Sorts the top FLOATVECTOR item in ascending order. NaN elements
+/// are placed at the end.
 pub fn float_vector_sort_asc(push_state: &mut PushState, _instruction_cache: &InstructionCache) {
     if let Some(fvec) = push_state.float_vector_stack.get_mut(0) {
-        fvec.values.sort_by(|a, b| a.partial_cmp(b).unwrap());
+        fvec.values.sort_by(float_order);
     }
 }
 
-/// FLOATVECTOR.SORT*DESC: Sorts the top FLOATVECTOR item in descending order.
+/// FLOATVECTOR.SORT*DESC: Sorts the top FLOATVECTOR item in descending order (the reverse
+/// of SORT*ASC, so NaN elements are placed at the beginning).
 pub fn float_vector_sort_desc(push_state: &mut PushState, _instruction_cache: &InstructionCache) {
     if let Some(fvec) = push_state.float_vector_stack.get_mut(0) {
-        fvec.values.sort_by(|a, b| a.partial_cmp(b).unwrap());
+        fvec.values.sort_by(float_order);
         fvec.values.reverse();
     }
 }
